@@ -1,6 +1,94 @@
-import SpVerif.Model.Dask
+import SpVerif.Lemmas.DaskFacts
+/-!
+# C06 — a Dask geo frame answers exactly like the pandas frame it represents
+
+Theorems about the partition model `Dask` (a frame = list of partitions = the concatenation): element-wise operations
+commute with concatenation, the NaN-ignoring fold of the partition bounds is the total bounds of the concatenation (empty and
+all-missing partitions are the unit), and partition selection for `cx` / `cx_partitions` never drops a partition that holds
+an intersecting row.  Dask's graph construction and execution are what the correspondence exercises.
+-/
 namespace SpVerif
-open Dask
+open Dask Geom Frames RTree
+
 /-- a frame without partitions has NaN total bounds -/
 theorem C06_no_partitions : daskTotalBounds [] = none := rfl
+
+/-- element-wise maps (bounds, area, length, intersects_bounds): mapping every partition and concatenating is mapping the
+concatenation -/
+theorem C06_elementwise {α β : Type} (f : α → β) (parts : List (List α)) :
+    (parts.map (fun p => p.map f)).flatten = parts.flatten.map f := by
+  simp [List.map_flatten]
+
+theorem unionBox_assoc (d : Nat) (a b c : NBox) : unionBox d (unionBox d a b) c = unionBox d a (unionBox d b c) := by
+  unfold unionBox
+  congr 1
+  · apply List.map_congr_left
+    intro k hk
+    have hk' : k < d := by simpa using hk
+    have h1 := lo_union d a b k hk'
+    have h2 := lo_union d b c k hk'
+    unfold unionBox at h1 h2
+    rw [h1, h2]; omega
+  · apply List.map_congr_left
+    intro k hk
+    have hk' : k < d := by simpa using hk
+    have h1 := hi_union d a b k hk'
+    have h2 := hi_union d b c k hk'
+    unfold unionBox at h1 h2
+    rw [h1, h2]; omega
+
+theorem unionOpt_assoc (d : Nat) (a b c : Option NBox) : unionOpt d (unionOpt d a b) c = unionOpt d a (unionOpt d b c) := by
+  cases a <;> cases b <;> cases c <;> simp [unionOpt, unionBox_assoc]
+
+theorem unionOpt_none_right (d : Nat) (a : Option NBox) : unionOpt d a none = a := by cases a <;> rfl
+theorem unionOpt_none_left (d : Nat) (a : Option NBox) : unionOpt d none a = a := by cases a <;> rfl
+
+theorem totalBounds_fold (els : List (Option Elem)) (acc : Option NBox) :
+    els.foldl (fun acc e => unionOpt 2 acc (elemBounds e)) acc = unionOpt 2 acc (Dask.totalBounds els) := by
+  induction els generalizing acc with
+  | nil => simp [Dask.totalBounds, unionOpt_none_right]
+  | cons e es ih =>
+    simp only [List.foldl_cons, Dask.totalBounds]
+    rw [ih, ih (unionOpt 2 none (elemBounds e)), unionOpt_none_left, unionOpt_assoc]
+
+theorem totalBounds_append (xs ys : List (Option Elem)) :
+    Dask.totalBounds (xs ++ ys) = unionOpt 2 (Dask.totalBounds xs) (Dask.totalBounds ys) := by
+  unfold Dask.totalBounds
+  rw [List.foldl_append, totalBounds_fold]
+  rfl
+
+/-- **total_bounds**: the NaN-ignoring fold of the per-partition bounds equals the total bounds of the concatenated frame,
+for every partitioning (empty and all-missing partitions contribute nothing) -/
+theorem C06_total_bounds (parts : List Part) : daskTotalBounds parts = Dask.totalBounds parts.flatten := by
+  have gen : ∀ (acc : List (Option Elem)),
+      (partitionBounds parts).foldl (unionOpt 2) (Dask.totalBounds acc) = Dask.totalBounds (acc ++ parts.flatten) := by
+    induction parts with
+    | nil => intro acc; simp [partitionBounds]
+    | cons p ps ih =>
+      intro acc
+      simp only [partitionBounds, List.map_cons, List.foldl_cons, List.flatten_cons] at ih ⊢
+      rw [← totalBounds_append, ih, List.append_assoc]
+  have := gen []
+  simpa [daskTotalBounds, Dask.totalBounds] using this
+
+/-- **cx_partitions / cx never lose a row**: every partition that holds a row intersecting the (oriented) box is among the
+partitions returned -/
+theorem C06_cx_partitions_lose_no_row (b : Box) (hb : orientBox b = b) (parts : List Part) (i : Nat) (hi : i < parts.length)
+    (e : Elem) (he : some e ∈ parts.getD i []) (hit : elemIB b (some e) = true) : i ∈ cxPartitions b parts :=
+  cxPartitions_keeps b hb parts i hi e he hit
+
+/-- only rows that intersect the box are returned, each from a kept partition -/
+theorem C06_cx_sound (b : Box) (parts : List Part) (i j : Nat) (h : (i, j) ∈ daskCx b parts) :
+    i ∈ cxPartitions b parts ∧ j ∈ cxMask b (parts.getD i []) := by
+  unfold daskCx at h
+  simp only [List.mem_flatMap, List.mem_map] at h
+  obtain ⟨i', hi', j', hj', he⟩ := h
+  simp only [Prod.mk.injEq] at he
+  obtain ⟨rfl, rfl⟩ := he
+  exact ⟨hi', hj'⟩
+
+/-! non-vacuity: three partitions, one of them without any bounds -/
+example : daskTotalBounds [[some (.line [(0,0),(1,1)]), none], [none], [some (.line [(5,5),(6,6)]), some (.line [(2,2),(9,9)])]]
+    = some [0, 0, 9, 9] := by decide
+
 end SpVerif
